@@ -113,6 +113,23 @@ theorem appender_emitOptEntries (os : List OptEntry) : Appender (emitOptEntries 
   · exact appender_emitU16 _
   · exact appender_emitOptVal _
 
+theorem appender_emitTypeSet (ts : TypeSet) : Appender (emitTypeSet ts) := by
+  unfold emitTypeSet
+  cases ts.orig with
+  | some bs => exact appender_emitSlice bs
+  | none =>
+    refine seqAll_appender _ ?_
+    intro f hf
+    simp only [List.mem_map] at hf
+    obtain ⟨wb, _, rfl⟩ := hf
+    refine seqAll_appender _ ?_
+    intro g hg
+    simp only [List.mem_append, List.mem_cons, List.not_mem_nil, or_false, List.mem_map] at hg
+    rcases hg with (rfl | rfl) | ⟨b, _, rfl⟩
+    · exact appender_emitU8 _
+    · exact appender_emitU8 _
+    · exact appender_emitU8 _
+
 /-- every modelled RDATA emitter only ever appends -/
 theorem appender_emitRData (t : Nat) (d : RData) (hm : d.emitModelled = true) : Appender (emitRData t d) := by
   cases d <;> first | (simp [RData.emitModelled] at hm; done) | skip
@@ -247,6 +264,34 @@ theorem appender_emitRData (t : Nat) (d : RData) (hm : d.emitModelled = true) : 
       · exact appender_emitU16 _
       · exact appender_emitName _
     · exact appender_emitSlice _
+  case nsec next ts =>
+    refine appender_withRdataBehavior (seqAll_appender _ ?_) _
+    intro f hf
+    simp only [List.mem_cons, List.not_mem_nil, or_false] at hf
+    rcases hf with rfl | rfl
+    · exact appender_emitName _
+    · exact appender_emitTypeSet _
+  case nsec3 oo iter salt hash b32 ts =>
+    refine seqAll_appender _ ?_
+    intro f hf
+    simp only [List.mem_cons, List.not_mem_nil, or_false] at hf
+    rcases hf with rfl | rfl | rfl | rfl | rfl | rfl | rfl | rfl
+    · exact appender_emitU8 _
+    · exact appender_emitU8 _
+    · exact appender_emitU16 _
+    · exact appender_emitU8 _
+    · exact appender_emitSlice _
+    · exact appender_emitU8 _
+    · exact appender_emitSlice _
+    · exact appender_emitTypeSet _
+  case csync serial flags ts =>
+    refine seqAll_appender _ ?_
+    intro f hf
+    simp only [List.mem_cons, List.not_mem_nil, or_false] at hf
+    rcases hf with rfl | rfl | rfl
+    · exact appender_emitU32 _
+    · exact appender_emitU16 _
+    · exact appender_emitTypeSet _
   case caa cr rs tag v =>
     refine appender_withRdataBehavior (seqAll_appender _ ?_) _
     intro f hf
